@@ -321,3 +321,24 @@ Example model_is_code_parse_hyps :
   Forall (fun s => match_duration s <> None /\ week_frac_free (the_match s))
          [[80; 49; 89; 50; 77; 51; 68; 84; 52; 72; 53; 77; 54; 46; 53; 83]; [80; 49; 46; 53; 68]; [80; 84; 48; 44; 50; 53; 72]; [80; 51; 87]].
 Proof. exact week_frac_free_instances. Qed.
+
+(* ---- the fractional week closed (Proofs/DurParseWeekCarry.v, through Flocq): for x = int(portion) / 10 * 7 CPython's float `x // 1`, `x % 1`
+   and int() agree with the hand model's trunc x and x - trunc x (the floor of a non-negative double is its truncation; x % 1 is exact), so the
+   hand model equals the translated code for EVERY match record — the only remaining side condition is that the fraction digits of the weeks
+   group denote a number below 10^15 (at most 15 digits; the carry is proved below 2^50; nothing else is bounded).  Print Assumptions lists the
+   standard real-number axioms Flocq rests on; model_is_code_parse_iso8601_duration_partial above (no week fraction) depends on nothing. *)
+Theorem model_is_code_parse_iso8601_duration : forall m, week_frac_small m ->
+  gen_parse_iso8601_duration m =
+  bind (py_args m) (fun a => duration_native (a_years a) (a_months a) (a_weeks a) (a_days a) (a_hours a) (a_minutes a) (a_seconds a) (a_us a)).
+Proof. exact gen_parse_eq_week. Qed.
+Print Assumptions model_is_code_parse_iso8601_duration.
+
+Theorem model_is_code_py_native : forall s m, match_duration s = Some m -> week_frac_small m ->
+  py_native s = gen_parse_iso8601_duration m.
+Proof. exact py_native_is_code_week. Qed.
+Print Assumptions model_is_code_py_native.
+
+(* week_frac_small m: the weeks group is absent, or has no fraction, or its fraction digits are worth less than 10^15 *)
+Theorem week_frac_small_covers : forall m, week_frac_free m -> week_frac_small m.
+Proof. exact week_frac_free_small. Qed.
+Print Assumptions week_frac_small_covers.
